@@ -83,9 +83,20 @@ def _process_case(spec):
     try:
         if spec["kind"] == "generated":
             p = isogen.generate(spec["seed"], spec["profile"], **(spec.get("opts") or {}))
+            label = ""
+            if spec.get("mutate"):
+                # near-miss corpus: a single-fault mutant (normally rejected; if the compiler accepts it, the oracles
+                # of the calling check judge what it generated)
+                import random
+                import isomut
+                ms = [m for m in isomut.single_fault_mutants(p, random.Random(spec["seed"] ^ 0x5A5A))
+                      if m.mutation["fault"] not in spec.get("mutate_exclude", ())]
+                if ms:
+                    p = ms[spec["seed"] % len(ms)]
+                    label = ":mutant:" + p.mutation["fault"]
             shutil.rmtree(spec["root"], ignore_errors=True)
             p.write(spec["root"])
-            c = Case(f"{spec['profile']}:{spec['seed']}", "generated", spec["root"], p)
+            c = Case(f"{spec['profile']}:{spec['seed']}{label}", "generated", spec["root"], p)
         else:
             proj = [x for x in cc.checked_in_projects() if x["name"] == spec["name"]][0]
             cc.copy_checked_in(proj, spec["root"])
@@ -113,7 +124,7 @@ def _process_case(spec):
             shutil.rmtree(spec["root"], ignore_errors=True)
 
 
-def run_cases(ctx, cli, profiles, n, label, analyzers, with_checked_in=True, opts=None, probe=True):
+def run_cases(ctx, cli, profiles, n, label, analyzers, with_checked_in=True, opts=None, probe=True, mutate=False, mutate_exclude=()):
     """profiles: list of profile names; n generated cases per profile. Returns list of per-case dicts."""
     from concurrent.futures import ProcessPoolExecutor
     specs = []
@@ -126,7 +137,7 @@ def run_cases(ctx, cli, profiles, n, label, analyzers, with_checked_in=True, opt
             seed = subseed(ctx.seed, label, prof, i) % (1 << 48)
             specs.append({"kind": "generated", "profile": prof, "seed": seed, "opts": opts,
                           "root": os.path.join(ctx.work, f"{label}-{prof}-{i}"), "cli": cli, "analyzers": analyzers,
-                          "probe": probe})
+                          "probe": probe, "mutate": mutate, "mutate_exclude": tuple(mutate_exclude)})
     with ProcessPoolExecutor(max_workers=runner.NCPU) as ex:
         results = list(ex.map(_process_case, specs, chunksize=1))
     errs = [r["error"] for r in results if r.get("error")]
